@@ -178,7 +178,8 @@ def scenario_flags(body, seeds=()):
                     flags.add(s.place.local)
                     changed = True
                 if s.place.local not in tags and s.rv.k == "use" and s.rv.ops and s.rv.ops[0].place is not None \
-                        and s.rv.ops[0].place.is_local() and s.rv.ops[0].place.local in tags:
+                        and s.rv.ops[0].place.local in tags and (s.rv.ops[0].place.is_local() or (
+                            len(s.rv.ops[0].place.proj) == 2 and isinstance(s.rv.ops[0].place.proj[0], dict) and "dc" in s.rv.ops[0].place.proj[0])):
                     tags.add(s.place.local)
                     changed = True
     # only chains that end in a test matter
@@ -190,8 +191,8 @@ def scenario_flags(body, seeds=()):
             if blk.cleanup:
                 continue
             for s in blk.stmts:
-                if s.kind == "assign" and s.place.is_local() and s.place.local in live and s.rv.k == "use" and s.rv.ops \
-                        and s.rv.ops[0].place is not None and s.rv.ops[0].place.is_local() and s.rv.ops[0].place.local in tags \
+                if s.kind == "assign" and s.place.is_local() and s.place.local in live and s.rv.k in ("use", "agg") and s.rv.ops \
+                        and s.rv.ops[0].place is not None and s.rv.ops[0].place.local in tags \
                         and s.rv.ops[0].place.local not in live:
                     live.add(s.rv.ops[0].place.local)
                     changed = True
